@@ -21,6 +21,11 @@ def check(ctx):
     st = pipeline.check(ctx, ctx.n(4000, 60000), ctx.n(300, 5000), bodies=True)
     p = st["programs"]
     g = p.get("translated_bodies")
+    bc = pipeline.bodies_coverage(ctx)
+    if bc:
+        ctx.notes.append("translator: %d descriptors translated (%d of them modelled by hand, %d with an agreement theorem), %d refused "
+                         "(%d of the refused ones have a hand-written body: tied by correspondence only)"
+                         % (bc["translated"], bc["translated_and_modelled"], bc["with_theorem"], bc["refused"], len(bc["modelled_but_refused"])))
     if g:
         ctx.notes.append("translated bodies (Gen/Bodies, stream runG): %d programs compared, %d disagreements with execute(), "
                          "%d answers different from the hand-written bodies; sessions: %r"
